@@ -100,7 +100,7 @@ func (c *c03x) boolFieldBranches(fn *ssa.Function, rootPred func(ssa.Value) bool
 		if !ok {
 			continue
 		}
-		g := fw.Guard{Cond: ifi.Cond, True: true}.Normalize()
+		g := c03Norm(fw.Guard{Cond: ifi.Cond, True: true})
 		pp := c.pathOf(g.Cond)
 		if pp.path != path || !rootPred(pp.root) {
 			continue
@@ -115,7 +115,7 @@ func (c *c03x) boolFieldBranches(fn *ssa.Function, rootPred func(ssa.Value) bool
 }
 
 func c03AddChild(r *fw.Run, c *c03x) {
-	ru := r.Rule("C03.addchild", "AddChild(v): v.Parent = d.Value on every path that appends; Children = append(Children, v) on the compound of d.Value; for structs every path to the append inserts ByName[v.Name] = v, and the insert is dominated by the duplicate test ByName[v.Name] whose hit arm never continues (Fatalf, force-proof)", 6)
+	ru := r.Rule("C03.addchild", "AddChild(v): v.Parent = d.Value on every path that appends; Children = append(Children, v) on the compound of d.Value; for structs every path to the append inserts ByName[v.Name] = v, and the insert is dominated by the duplicate test ByName[v.Name] whose hit arm never continues (Fatalf, force-proof); ByName is created only while nil", 7)
 	f := c.fn(ru, "(*pkg/decode.D).AddChild")
 	if f == nil {
 		return
@@ -196,6 +196,43 @@ func c03AddChild(r *fw.Run, c *c03x) {
 	})
 	ru.Check(okUp && len(ups) >= 1, "AddChild:byname-insert", c.at(f), "ByName[v.Name] = v", "AddChild does not insert ByName[v.Name] = v")
 
+	// (4b) the name index is created once: ByName is only ever assigned a fresh map, and only while it is nil
+	okInit, whyInit := true, ""
+	for _, fs := range c.fieldStores(f, c.compT, "ByName") {
+		if !isComp(fs.base.root) || fs.base.path != "" || fs.sub != "" {
+			okInit, whyInit = false, "ByName of something other than the compound of d.Value is assigned"
+			continue
+		}
+		if _, isMake := fs.st.Val.(*ssa.MakeMap); !isMake {
+			okInit, whyInit = false, "ByName is assigned something other than a new map"
+			continue
+		}
+		isNil := false
+		for _, g := range fw.Guards(fs.st.Block()) {
+			g = c03Norm(g)
+			bo, ok := g.Cond.(*ssa.BinOp)
+			if !ok || (bo.Op != token.EQL && bo.Op != token.NEQ) {
+				continue
+			}
+			var other ssa.Value
+			if isNilConst(bo.X) {
+				other = bo.Y
+			} else if isNilConst(bo.Y) {
+				other = bo.X
+			} else {
+				continue
+			}
+			mp := c.pathOf(other)
+			if mp.path == ".ByName" && mp.root == fs.base.root && (bo.Op == token.EQL) == g.True {
+				isNil = true
+			}
+		}
+		if !isNil {
+			okInit, whyInit = false, "ByName is replaced by a new map although it may already hold names"
+		}
+	}
+	ru.Check(okInit, "AddChild:byname-init", c.at(f), "ByName = make(map) only under ByName == nil", "AddChild: "+whyInit+": the names of the children linked so far are forgotten (ByName and Children disagree, a repeated name is no longer detected)")
+
 	// (5) struct paths insert into ByName; every compound path appends
 	insBlocks := map[*ssa.BasicBlock]bool{}
 	for _, u := range ups {
@@ -256,7 +293,7 @@ func c03AddChild(r *fw.Run, c *c03x) {
 		if !ok {
 			continue
 		}
-		g := fw.Guard{Cond: ifi.Cond, True: true}.Normalize()
+		g := c03Norm(fw.Guard{Cond: ifi.Cond, True: true})
 		ex, ok := g.Cond.(*ssa.Extract)
 		if !ok || ex.Index != 1 {
 			continue
@@ -301,7 +338,7 @@ func c03AddChild(r *fw.Run, c *c03x) {
 // ---------------------------------------------------------------------------
 
 func c03ByName(r *fw.Run, c *c03x) {
-	ru := r.Rule("C03.byname", "every insert into / delete from Compound.ByName anywhere in fq is keyed by the Name of the very value inserted / removed; Value.Remove deletes from its parent's compound and stores back Children filtered by identity with the receiver, on every struct path", 5)
+	ru := r.Rule("C03.byname", "every insert into / delete from Compound.ByName anywhere in fq is keyed by the Name of the very value inserted / removed; Value.Remove deletes from its parent's compound and stores back Children filtered by identity with the receiver, on every struct path; every other child is kept", 6)
 	p := c.p
 	nUpd, nDel := 0, 0
 	for _, fn := range p.FqFunctions() {
@@ -370,8 +407,76 @@ func c03CheckRemove(ru *fw.Rule, c *c03x, fn *ssa.Function, del *ssa.Call) {
 		return
 	}
 	for _, fs := range sts {
-		ok, why := c.filteredBy(fs.st.Val, comp, X)
+		ok, why, elems, apps := c.filteredBy(fs.st.Val, comp, X)
 		ru.Check(ok, "remove-children|"+name, p.Rel(fs.st.Pos()), "Children = [c in Children | c != removed]", "Remove: "+why)
+		if !ok {
+			continue
+		}
+		// every other child is kept: the loop visits Children from 0, an iteration ends without the
+		// append only through the `element == removed` edge, and that edge goes on with the next element
+		okAll, whyAll := len(elems) >= 1, "no filter loop found"
+		appBlocks := map[*ssa.BasicBlock]bool{}
+		for _, a := range apps {
+			appBlocks[a.Block()] = true
+		}
+		for _, e := range elems {
+			ia := e.X.(*ssa.IndexAddr)
+			if !c.countsFromZero(ia.Index) {
+				okAll, whyAll = false, "the filter loop does not visit the old Children from index 0 in steps of 1"
+				continue
+			}
+			body := e.Block()
+			hdr := c03LoopHeader(body)
+			if hdr == nil {
+				okAll, whyAll = false, "the old Children are not filtered in a loop"
+				continue
+			}
+			loop := c03NaturalLoop(hdr)
+			cut := map[[2]*ssa.BasicBlock]bool{}
+			for b := range loop {
+				ifi, ok := b.Instrs[len(b.Instrs)-1].(*ssa.If)
+				if !ok {
+					continue
+				}
+				g := c03Norm(fw.Guard{Cond: ifi.Cond, True: true})
+				bo, ok := g.Cond.(*ssa.BinOp)
+				if !ok || (bo.Op != token.EQL && bo.Op != token.NEQ) {
+					continue
+				}
+				if !((bo.X == ssa.Value(e) && c.canon(bo.Y) == X) || (bo.Y == ssa.Value(e) && c.canon(bo.X) == X)) {
+					continue
+				}
+				eqSucc := b.Succs[0]
+				if (bo.Op == token.EQL) != g.True {
+					eqSucc = b.Succs[1]
+				}
+				cut[[2]*ssa.BasicBlock{b, eqSucc}] = true
+				if !c03StaysInLoop(eqSucc, hdr, loop) {
+					okAll, whyAll = false, "finding the removed value ends the loop (break/return): the children after it are dropped from Children too"
+				}
+			}
+			seen := map[*ssa.BasicBlock]bool{}
+			stack := []*ssa.BasicBlock{body}
+			for len(stack) > 0 {
+				b := stack[len(stack)-1]
+				stack = stack[:len(stack)-1]
+				if seen[b] || appBlocks[b] {
+					continue
+				}
+				seen[b] = true
+				for _, s := range b.Succs {
+					if cut[[2]*ssa.BasicBlock{b, s}] {
+						continue
+					}
+					if s == hdr || !loop[s] {
+						okAll, whyAll = false, "an element other than the removed value can pass the loop without being kept"
+						continue
+					}
+					stack = append(stack, s)
+				}
+			}
+		}
+		ru.Check(okAll, "remove-keeps-others|"+name, p.Rel(fs.st.Pos()), "every element != removed is appended; the removed one only skips its own iteration", "Remove: "+whyAll+": siblings vanish from Children while their ByName entries stay")
 	}
 	// a struct child cannot leave Children while staying in ByName: on paths where IsArray is
 	// false the Children store is only reached through the delete
@@ -400,9 +505,11 @@ func c03CheckRemove(ru *fw.Rule, c *c03x, fn *ssa.Function, del *ssa.Call) {
 
 // filteredBy: v is built only from nil and append(acc, e) where e is an element of comp.Children
 // and the append is guarded by e != X.
-func (c *c03x) filteredBy(v ssa.Value, comp ssa.Value, X ssa.Value) (bool, string) {
+func (c *c03x) filteredBy(v ssa.Value, comp ssa.Value, X ssa.Value) (bool, string, []*ssa.UnOp, []*ssa.Call) {
 	seen := map[ssa.Value]bool{}
 	nApp := 0
+	var elems []*ssa.UnOp
+	var apps []*ssa.Call
 	var why string
 	var rec func(v ssa.Value) bool
 	rec = func(v ssa.Value) bool {
@@ -450,7 +557,7 @@ func (c *c03x) filteredBy(v ssa.Value, comp ssa.Value, X ssa.Value) (bool, strin
 			keepGuard := false
 			if found {
 				for _, g := range fw.Guards(x.Block()) {
-					g = g.Normalize()
+					g = c03Norm(g)
 					if bo, ok := g.Cond.(*ssa.BinOp); ok && ((bo.X == e && c.canon(bo.Y) == X) || (bo.Y == e && c.canon(bo.X) == X)) {
 						if (bo.Op == token.EQL && !g.True) || (bo.Op == token.NEQ && g.True) {
 							keepGuard = true
@@ -464,16 +571,18 @@ func (c *c03x) filteredBy(v ssa.Value, comp ssa.Value, X ssa.Value) (bool, strin
 				return false
 			}
 			nApp++
+			elems = append(elems, ld)
+			apps = append(apps, x)
 			return rec(base)
 		}
 		why = "Children assigned from an unrecognised value"
 		return false
 	}
 	if !rec(v) {
-		return false, why
+		return false, why, nil, nil
 	}
 	if nApp == 0 {
-		return false, "no element of the old Children is kept"
+		return false, "no element of the old Children is kept", nil, nil
 	}
-	return true, ""
+	return true, "", elems, apps
 }
